@@ -22,6 +22,8 @@ import (
 	"pgregory.net/rapid"
 
 	"verif/internal/ev"
+	"verif/internal/gen"
+	"verif/internal/model"
 	"verif/internal/sut"
 )
 
@@ -72,6 +74,41 @@ func scripts() []Script {
 	add("valid-allof", "schema", "{ // {allOf: \"@b\"}\n  \"own\": 1\n}", tB, nil, schemaOps)
 	add("valid-enum-rule", "schema", `"a" // {enum: @e}`, nil, []sut.Named{{Name: "@e", Text: "[\n \"a\", // first\n \"b\"\n]"}}, schemaOps[:2])
 	add("valid-or", "schema", `1 // {or: [{type: "integer", min: 0}, {type: "string", regex: "^a"}, "@k"]}`, tT, nil, schemaOps[:3])
+	// rule-sets with format types: their OpenAPI conversion rewrites type names (datetime -> date-time)
+	add("valid-or-formats", "schema", `"2021-01-02T07:23:12Z" // {or: [{type: "datetime"}, {type: "integer"}, {type: "email"}]}`, nil, nil, schemaOps)
+	add("valid-or-formats", "schema", "{\n  \"when\": \"2020-02-29\", // {or: [{type: \"date\"}, {type: \"uuid\"}, \"null\"]}\n  \"who\": \"a@b.cc\" // {or: [{type: \"email\", nullable: true}, {type: \"uri\"}]}\n}", nil, nil, schemaOps)
+	add("valid-formats", "schema", "{\n  \"d\": \"2020-02-29\", // {type: \"date\"}\n  \"u\": \"550e8400-e29b-41d4-a716-446655440000\", // {type: \"uuid\"}\n  \"p\": 1.25 // {precision: 2}\n}", nil, nil, schemaOps[2:])
+	// examples of many sizes (pooled buffers grow by doubling: 512, 1024, 2048, 4096, ...)
+	for _, n := range []int{20, 45, 90, 150, 200, 250, 300, 350, 400, 600, 800, 1500, 3000} {
+		var b strings.Builder
+		b.WriteString("[")
+		for i := 0; i < n; i++ {
+			if i > 0 {
+				b.WriteString(", ")
+			}
+			fmt.Fprintf(&b, "%d", 1000000000+i)
+		}
+		b.WriteString("]")
+		add("valid-sized", "schema", b.String(), nil, nil, [][]string{{"example", "openapi", "example"}, {"check", "example"}})
+		var o strings.Builder
+		o.WriteString("{")
+		for i := 0; i < n/4+1; i++ {
+			if i > 0 {
+				o.WriteString(", ")
+			}
+			fmt.Fprintf(&o, "\"key%04d\": \"value %d\"", i, i)
+		}
+		o.WriteString("}")
+		add("valid-sized", "schema", o.String(), nil, nil, [][]string{{"example", "openapi", "example"}})
+	}
+	// generated projects (accepted by construction) as further scripts
+	pg := rapid.Custom(func(t *rapid.T) *model.Project {
+		return gen.Project(t, gen.ProjectOpts{Satisfied: true, KeyType: true, RegexType: true, Container: true, EnumNotes: true})
+	})
+	for i := 0; i < 40; i++ {
+		sp := pg.Example(7000 + i).Text(nil)
+		add("valid-generated", "schema", sp.Root, sp.Types, sp.Rules, schemaOps[i%4:i%4+1])
+	}
 	add("invalid-scanner", "schema", `{"a": 1,}`, nil, nil, schemaOps[:2])
 	add("invalid-scanner", "schema", `[1, 2`, nil, nil, schemaOps[:2])
 	add("invalid-scanner", "schema", deep(3)+" }", nil, nil, schemaOps[:2])
